@@ -242,7 +242,18 @@ class Verdict:
             print("KNOWN-FINDING: property=%s %s [%d case(s) in this run; key=%s]" % (
                 self.pid, self.open[key]["what"], len(cases), key))
         seen = set()
-        for v in self.violations[:20]:
+        if self.violations:
+            counts = {}
+            for v in self.violations:
+                counts[v["key"]] = counts.get(v["key"], 0) + 1
+            print("violations by clause/key: " + ", ".join("%s x%d" % kv for kv in sorted(counts.items())))
+        # store a few per key so that every kind of violation has a replay
+        order, perkey = [], {}
+        for v in self.violations:
+            perkey[v["key"]] = perkey.get(v["key"], 0) + 1
+            if perkey[v["key"]] <= 4:
+                order.append(v)
+        for v in order[:24]:
             dg = digest(v)
             if dg in seen:
                 continue
@@ -252,8 +263,8 @@ class Verdict:
             write_json(os.path.join(d, "case.json"), v)
             print("VIOLATION property=%s replay=%s" % (self.pid, d))
             print("  clause/key: %s  %s" % (v["key"], v["what"]))
-        if len(self.violations) > 20:
-            print("  ... %d further violations not stored" % (len(self.violations) - 20))
+        if len(self.violations) > len(order[:24]):
+            print("  ... %d further violations not stored" % (len(self.violations) - len(order[:24])))
         return 1 if self.violations else 0
 
 
